@@ -37,7 +37,10 @@ func (c clock) Now() time.Time                  { return time.Now() }
 // NOTE: This cache forwards all requests to the client, so it MUST set the
 // "Date" header to the current time for responses that do not have it set.
 func FixDateHeader(h http.Header, receivedAt time.Time) bool {
-	if date, valid := RawTime(h.Get("Date")).Value(); !valid || date.IsZero() {
+	// Only a missing or unparsable Date is replaced. A Date that parses to Go's
+	// zero time ("Mon, 01 Jan 0001 00:00:00 GMT") is a valid date of a very old
+	// response, not a missing one.
+	if _, valid := RawTime(h.Get("Date")).Value(); !valid {
 		h.Set("Date", receivedAt.UTC().Format(http.TimeFormat))
 		return true
 	}
